@@ -17,6 +17,7 @@ import logging
 import os
 import sys
 import warnings
+import weakref
 
 warnings.simplefilter('ignore')
 REPO = os.environ.get('BUBUS_REPO', '/repo')
@@ -664,11 +665,52 @@ async def call_accessor(rec, ev, name, flags):
 # ---------------------------------------------------------------------------------------------
 # scenario execution
 # ---------------------------------------------------------------------------------------------
-def reset_globals():
-    try:
-        EventBus.all_instances.clear()
-    except Exception:
-        EventBus.all_instances = __import__('weakref').WeakSet()
+class OrderedBusSet:
+    """Stand-in for EventBus.all_instances (a WeakSet): same interface, weak references, but a *deterministic* iteration order
+    (creation order, or its reverse).  The library iterates this set in the inline drain of BaseEvent.__await__, so the order in
+    which an awaiting handler visits the queues of several buses depended on object addresses: the same scenario gave different
+    schedules from run to run.  The order is now part of the scenario (`busorder`: 'fwd' | 'rev'), both are explored."""
+
+    def __init__(self, reverse=False):
+        self._d = {}
+        self.reverse = reverse
+
+    def add(self, x):
+        k = id(x)
+        if k not in self._d or self._d[k]() is not x:
+            self._d[k] = weakref.ref(x, lambda r, k=k, d=self._d: d.pop(k, None) if d.get(k) is r else None)
+
+    def discard(self, x):
+        r = self._d.get(id(x))
+        if r is not None and r() is x:
+            del self._d[id(x)]
+
+    def remove(self, x):
+        if x not in self:
+            raise KeyError(x)
+        self.discard(x)
+
+    def clear(self):
+        self._d.clear()
+
+    def __contains__(self, x):
+        r = self._d.get(id(x))
+        return r is not None and r() is x
+
+    def _items(self):
+        xs = [r() for r in list(self._d.values())]
+        xs = [x for x in xs if x is not None]
+        return list(reversed(xs)) if self.reverse else xs
+
+    def __iter__(self):
+        return iter(self._items())
+
+    def __len__(self):
+        return len(self._items())
+
+
+def reset_globals(busorder='fwd'):
+    EventBus.all_instances = OrderedBusSet(reverse=(busorder == 'rev'))
     S._global_eventbus_lock = None
     H.GLOBAL_RETRY_SEMAPHORES.clear()
 
@@ -775,7 +817,7 @@ def wal_summary(rec):
 def execute(scn, probes=None):
     """Run one scenario; returns the trace dict {'scn':..., 'lines': [...], 'abort': kind|None}."""
     global REC
-    reset_globals()
+    reset_globals(scn.get('busorder', 'fwd'))
     for hd in scn['handlers']:
         hd.pop('_fn', None)
     rec = Rec(scn)
